@@ -63,7 +63,9 @@ meta['c07-int-boundary']['note']+=' (struct refuses the value: the call is not a
 meta['c07-int-boundary']['control']=True
 json.dump(meta,open('/verif/mutants/index.json','w'),indent=1,sort_keys=True)
 print(len(meta),'mutants written')
-MUT2=[('c20-finally-removed','C20','nptdms/tdms.py',"        finally:\n            if not keep_open:\n                self._reader.close()","        except EOFError:\n            raise\n        else:\n            if not keep_open:\n                self._reader.close()","files left open when reading raises")]
+MUT2=[('c20-finally-removed','C20','nptdms/tdms.py',"        finally:\n            if not keep_open:\n                self._reader.close()","        except EOFError:\n            raise\n        else:\n            if not keep_open:\n                self._reader.close()","files left open when reading raises"),
+ ('c05-window-aliases-cache','C05','nptdms/tdms.py',"        if self._raw_data is None:\n            raw_data = self._read_channel_data(offset, length)","        if self._raw_data is None:\n            if scaled and self._cached_chunk is not None and length is not None and isinstance(self._cached_chunk, np.ndarray):\n                (chunk_start, chunk_end) = self._cached_chunk_bounds\n                if chunk_start <= offset and offset + length <= chunk_end and length > 0:\n                    return self._cached_chunk[offset - chunk_start:offset - chunk_start + length]\n            raw_data = self._read_channel_data(offset, length)","windows inside the chunk cached by an integer lookup are returned as views of that cache (right values; the caller's array aliases library state)"),
+]
 meta=json.load(open('/verif/mutants/index.json'))
 for name,prop,f,old,new,note in MUT2:
     p=os.path.join(WT,f); s=open(p).read()
